@@ -24,6 +24,7 @@ import (
 	"github.com/olric-data/olric/internal/discovery"
 	"github.com/olric-data/olric/internal/protocol"
 	"github.com/olric-data/olric/internal/stats"
+	"github.com/olric-data/olric/internal/verifhook"
 	"github.com/olric-data/olric/pkg/storage"
 )
 
@@ -293,9 +294,11 @@ func (dm *DMap) getOnCluster(hkey uint64, key string) (storage.Entry, error) {
 	//  the readRepair function may call putOnFragment function which needs a write
 	// lock. Please remember calling RUnlock before returning here.
 	versions := dm.lookupOnOwners(hkey, key)
+	verifhook.At("get.owners", dm.name, key)
 	if dm.s.config.ReadQuorum >= config.MinimumReplicaCount {
 		v := dm.lookupOnReplicas(hkey, key)
 		versions = append(versions, v...)
+		verifhook.At("get.replicas", dm.name, key)
 	}
 
 	if len(versions) < dm.s.config.ReadQuorum {
@@ -321,7 +324,9 @@ func (dm *DMap) getOnCluster(hkey uint64, key string) (storage.Entry, error) {
 	if dm.s.config.ReadRepair {
 		// Parallel read operations may propagate different versions of
 		// the same key/value pair. The rule is simple: last write wins.
+		verifhook.At("get.repair.before", dm.name, key)
 		dm.readRepair(winner, versions)
+		verifhook.At("get.repaired", dm.name, key)
 	}
 	return winner.entry, nil
 }
